@@ -3,17 +3,24 @@ PROP = dict(
         module='kernel', pkg='device/video/console', pkgname='console', harness=['console/c19_test.go'],
         n=dict(quick=300, thorough=6000),
         anchors='C19.json', expr_imports=['Firefly.Gen.C19'],
+        extra_runs=[dict(module='kernel', pkg='hal', pkgname='hal', harness=['hal/c19hal_test.go'],
+                         extra_overlay={'kernel/device/video/console/zz_verif_c19_export.go': 'console/c19_export.go',
+                                        'kernel/multiboot/zz_verif_c19_export.go': 'multiboot/c19_export.go'},
+                         test='TestVerifC19Hal', n=dict(quick=20, thorough=300))],
         nontrivial=r'^[tv][wfs] .*\| .*\d:[0-9a-f]',
         rule='one evaluation = one trace line: a Write / Fill / Scroll (or SetFont, SetLogo, packColor, fbOffset, checksum) '
              'call on the real VgaTextConsole / VesaFbConsole whose framebuffer lies inside a pattern-filled host buffer, '
              'followed by a full diff of the host buffer; the Lean driver re-executes the call on the model and evaluates '
              'the pointwise specification on the implementation\'s framebuffer; distinct = by hash of (op, diff); '
-             'non-trivial = a write/fill/scroll that changed at least one framebuffer cell or byte',
+             'non-trivial = a write/fill/scroll that changed at least one framebuffer cell or byte. A second harness (package hal, '
+             'TestVerifC19Hal) boots command-line variants through the real hal.onConsoleInit on the real consoles and replays '
+             'the geometry it configured (oracle clause grid-fits) plus edge operations through the same driver',
         trusted=['in-package harness builds the consoles through DriverInit with mapRegionFn pointing into a Go byte slice '
                  '(Go bounds checks make every out-of-range store a panic, observed as `panic`)',
                  'SetLogo\'s pixel drawing and palette remapping are not modelled (palette is taken from the trace; the oracle '
                  'only checks that the drawing stays inside the logo rows and off the padding)',
-                 'SetPaletteColor/replace16/replace24 are outside the property and not exercised'],
+                 'SetPaletteColor/replace16/replace24 are outside the property and not exercised',
+                 'HAL run: overlay export shims in packages console and multiboot (DriverInit seams, state accessors, command-line cache reset)'],
         assumptions=['geometry domain of the theorems: grid of >= 1 cell, pitch >= width*bytesPerPixel, (height+1)*pitch+4 < 2^32, '
                      'depth in {8,15,16,24,32}, font glyphs >= 1x1, 256-entry palette; text: cols*rows < 2^31',
                      'SetLogo is called before SetFont (documented API contract)'],
